@@ -395,14 +395,15 @@ def handle (op : String) (args : List String) : String :=
     ",".intercalate (l.toArray.qsort (· < ·)).toList
   | "deck.wdeck", [kws] =>
     match (kws.splitOn "~").mapM readKwOut with
-    | some ks => hx (writeDeckM idFmt OpmVerif.Gen.RawConsts.outFlushPendingDefaults ⟨0, 0⟩ ks)
+    | some ks => hx (writeDeckM idFmt OpmVerif.Gen.RawConsts.outFlushShape ⟨0, 0⟩ ks)
     | none => "bad-op"
   | "deck.write", [split, rec] => match readRecord rec with
-    | some r => hx (writeRecord idFmt OpmVerif.Gen.RawConsts.outFlushPendingDefaults (split == "1") r)
+    | some r => hx (writeRecordM idFmt OpmVerif.Gen.RawConsts.outFlushShape (split == "1") r).1
     | none => "bad-op"
   | "deck.wparse", [sch, split, rec] => match parseSchema sch, readRecord rec with
     | some items, some r =>
-      match parseRecord conv items (writtenRecordText idFmt OpmVerif.Gen.RawConsts.outFlushPendingDefaults (split == "1") r) with
+      -- the record view the parser sees again: what the mirror wrote, without the "/\n"
+      match parseRecord conv items ((writeRecordM idFmt OpmVerif.Gen.RawConsts.outFlushShape (split == "1") r).1.dropLast.dropLast) with
       | none => "err"
       | some r' => showRecord r'
     | _, _ => "bad-op"
